@@ -26,6 +26,8 @@ CLAIMED = {
          "DESIGN.md 5/C16", "unranking theorems (Coq) + exhaustive decoder tables + generator replay from recorded draws + contract oracle"),
  "C13": ("Theorems: C13_double_boundary_zero (for every simplex and every candidate face the signed count of the two-step deletions vanishes, by induction on the simplex), C13_dd_zero (every entry of B_k B_{k+1} is zero for every orientation assignment, given that no simplex is listed twice and every facet is listed - what C03 proves of simplicial complexes), C13_entry_formula. Correspondence: every boundary matrix B_0..B_{dim+1} with its index maps and every Hodge Laplacian of generated complexes (int/string labels, explicit ids, random orientations) compared exactly with the model. PARTIAL: symmetry/positive semidefiniteness of the Hodge Laplacians and dim ker L0 = number of components are checked by the oracle (numpy), not proved; the link from C03's invariant to the two hypotheses of C13_dd_zero goes through the canonical sorting of member lists, which is not proved.",
          "DESIGN.md 5/C13", "chain-complex identity (Coq, induction on the simplex) + exact matrix correspondence + numerical oracle"),
+ "C15": ("PARTIAL. Theorem C15_trie_search (the prefix tree of utils/trie.py, transcribed with its insert and search, answers exactly whether the sorted word is one of the sorted inserted words, for all words and all insertion sequences). The three measures (edit distance with its redundancy bookkeeping over earlier overlapping maximal faces, face edit distance, simplicial fraction) are transcribed over exact rationals and compared with the implementation for min_size 1..3, both exclude_min_size and normalize values; that they equal the enumerative definitions, lie in [0,1] or are NaN, and equal 1 on downward-closed hypergraphs is decided by the brute-force oracle, not by a theorem (the inclusion-exclusion argument is described in DESIGN.md and left unproved).",
+         "DESIGN.md 5/C15", "trie correctness theorem (Coq) + exact-rational correspondence of the three measures + exhaustive-enumeration oracle"),
 }
 NOTE = ("trusted: Coq 8.16.1 kernel and vm_compute; no axioms (Print Assumptions: Closed under the global context); "
         "harness generators/serialiser/observation; CPython containers and numeric libraries are environment "
